@@ -144,7 +144,7 @@ def c04_cases(tier, seed):
         more = gens.g_pieces_text(4, positions=(0,))
         cs += rnd.sample(more, min(len(more), 60000))
     cs += gens.g_cst(seed, 800 if q else 6000, flags="nc", renderings=2, hoist=False)
-    cs += [c for c in gens.g_entity_names() + gens.g_entity_value_chars() if "expect_text" in c.meta]
+    cs += [c for c in gens.g_entity_names() + gens.g_entity_value_chars() + gens.g_charref_values() if "expect_text" in c.meta]
     cs += gens.g_long(flags="nc")
     # a name declared twice: the first declaration binds, in text as in attribute values and through another entity
     cs.append(Case("<!DOCTYPE r [<!ENTITY x 'ONE'><!ENTITY x 'TWO'><!ENTITY y '[&x;]'>]><r a='&x;'>&x;&y;<c b='&y;'/></r>", "nc", True,
@@ -174,7 +174,7 @@ def c05_cases(tier, seed):
     cs = gens.g_pieces_attr(3 if q else 4)
     cs += gens.g_pieces_attr_in_entity(2 if q else 3)
     cs += gens.g_pieces_attr_after(1 if q else 2)
-    cs += [c for c in gens.g_entity_names() + gens.g_entity_value_chars() if "expect_attr" in c.meta]
+    cs += [c for c in gens.g_entity_names() + gens.g_entity_value_chars() + gens.g_charref_values() if "expect_attr" in c.meta]
     cs += gens.g_dup_attr_wide(flags="c") + gens.g_many_small_expansions(flags="c") + gens.g_reserved_uri_values(flags="c")
     cs += gens.g_cst(seed, 800 if q else 6000, flags="nc", renderings=2, hoist=False)
     # attribute lists interleaved with declarations, 0..40 attributes
@@ -291,6 +291,7 @@ def c07_cases(tier, seed):
                    meta={"gen": "pe-not-ge", "expect_content": ["Q 1 - x72", "X 2 " + spec.hexs("GE")]}))
     cs += gens.g_ent_nested_elems(flags="nc")
     cs += gens.g_ns_entity_sibling(flags="nc") + [Case(c.data, "nc", True, meta={"gen": c.meta["gen"], "wellformed": c.meta["wellformed"]}) for c in gens.g_many_small_expansions()]
+    cs += [Case(c.data, "nc", True, meta={"gen": c.meta["gen"], "wellformed": "a declared entity whose name resembles a predefined one"}) for c in gens.g_entity_names()]
     cs += [Case(c.data, "nc", True, meta={"gen": c.meta["gen"], "wellformed": "character / predefined references are not entity expansions"})
            for c in gens.g_ent_charrefs_free(flags="c") if c.meta.get("k") in (255, 256, 300) and c.meta.get("ref") in ("&amp;", "&#x41;")]
     # the equivalence also holds under a nodes_limit that the inline document just meets: text arriving in several
@@ -580,6 +581,8 @@ def c09_cases(tier, seed):
     cs += gens.g_ent_many_decls(flags="c", dists=(256, 512) if q else (256, 512, 65536)) + gens.g_many_small_expansions(flags="c") + gens.g_ent_ladder(flags="c")
     cs += gens.g_ent_fanout_sep([2, 3, 4, 8, 15], [1, 2, 3, 6] if q else [1, 2, 3, 4, 6, 8], flags="c")
     cs += gens.g_ent_toplevel(1000 if q else 100000, flags="c")
+    # references at depth zero are not limited: more than 2^16 of them in one text / one attribute value
+    cs += gens.g_ent_toplevel(65540, flags="c")
     cs += gens.g_ent_random(seed, 1500 if q else 15000, flags="c")
     return cs
 
@@ -610,7 +613,10 @@ def c10_cases(tier, seed):
     if not q:
         # the largest sizes without the lookup / Debug batteries (quadratic in the model's driver: a shard of 65 536-character
         # documents did not finish within the driver's 20-minute limit)
-        cs += gens.g_long_nonascii(flags="ncp", totals=(65535, 65536))
+        big = gens.g_long_nonascii(flags="ncp", totals=(65535, 65536))
+        for c in big:
+            c.meta = dict(c.meta or {}, impl_only=True)      # the list-based model needs minutes for each of these; the implementation is run on all of them
+        cs += big
     # the documented saturation limits of the attribute position fields, with non-ASCII names
     cs += [c for c in gens.g_long_nonascii(flags="pa", totals=(65535, 65536)) if c.meta["where"] in ("attr-name", "tag-name")]
     return cs
@@ -1072,6 +1078,12 @@ def c01_extra(tier, seed, harness_rel, harness_dbg):
         keep = [c for c in small if (c.meta or {}).get("gen") in ("charref-width", "entity-value-prefix")]
         rest = [c for c in small if (c.meta or {}).get("gen") not in ("charref-width", "entity-value-prefix")]
         small = keep + rnd.sample(rest, min(len(rest), 4000 if q else 40000))
+        # every option value of the quantifier under the debug build as well: arithmetic on nodes_limit (0, 1, 2, small, u32::MAX),
+        # with and without allow_dtd, on a handful of inputs (the empty input among them)
+        for data in (b"", b"<a/>", b"<a>t<b/>u</a>", b"<!DOCTYPE a [<!ENTITY e '<b/>x'>]><a>&e;&e;</a>", b"<a", b"\xef\xbb\xbf<?xml version='1.0'?><a k='v'/>"):
+            for lim in (0, 1, 2, 3, 5, U32MAX - 1, U32MAX):
+                for dtd in (True, False):
+                    small.append(Case(data, "", dtd, lim, meta={"gen": "options-debug-build"}))
         res = rxlib.run_sharded(harness_dbg, ["dump"], small, os.path.join(BUILD, "work-C01"), "dbg")
         bad = [(i, res[i][0] if res[i] else "no output") for i in range(len(small)) if rxlib.result_class(res[i]) not in ("ok", "err")]
         info.append({"family": "corpus-debug-build", "cases": len(small), "failures": len(bad)})
